@@ -27,7 +27,7 @@ type c02Case struct {
 
 var (
 	c02Owners     = []string{"A", "P", "S", "SP"}
-	c02Flows      = []string{"code", "oidc", "hyb-idt"}
+	c02Flows      = []string{"code", "oidc", "hyb-idt", "par", "par-extra-redirect"}
 	c02Positions  = []string{"fresh", "after-other-grant", "after-refresh-chain", "after-revocation"}
 	c02Presenters = []string{"owner", "foreign-confidential", "foreign-public", "owner-wrong-secret"}
 	c02Redirs     = []string{"equal", "absent", "other-registered", "percent-encoded", "host-case", "trailing-slash", "with-fragment", "unregistered", "query-added"}
@@ -90,7 +90,30 @@ func c02Run(c c02Case, res *WRes) {
 		opts.GrantScopes = func(req []string) []string { return without(req, "photos") }
 		opts.GrantAud = func(req []string) []string { return without(req, "https://other.example") }
 	}
-	ao := w.Authorize(params, opts)
+	var ao *Obs
+	if strings.HasPrefix(c.Flow, "par") {
+		// the authorization request is pushed; the front channel carries client_id + request_uri only
+		// (par-extra-redirect: plus another registered redirect_uri, which must not re-bind the code)
+		po := w.PAR(params, w.AuthFor(c.Owner))
+		ru := po.Str("request_uri")
+		if ru == "" {
+			res.note("sanity:push-refused:" + c.Owner + ":" + po.Class())
+			return
+		}
+		q := url.Values{"client_id": {c.Owner}, "request_uri": {ru}}
+		if c.Flow == "par-extra-redirect" {
+			if !carried {
+				return // nothing was pushed to be shadowed: adding a parameter that was not pushed is not pinned (C17)
+			}
+			q.Set("redirect_uri", "https://"+c.Owner+".example/cb2")
+		}
+		ao = w.Authorize(q, opts)
+		if loc := ao.Location; ao.Param("code") != "" && carried && !strings.HasPrefix(loc, regURI+"?") {
+			res.note("par-redirect-target-differs-from-pushed")
+		}
+	} else {
+		ao = w.Authorize(params, opts)
+	}
 	code := ao.Param("code")
 	if code == "" {
 		res.note("sanity:authorize-refused:" + c.Owner + "/" + c.Flow + ":" + ao.Class())
